@@ -733,7 +733,152 @@ def run_mixedparam(c):
     return out
 
 
+# --------------------------------------------------------------------------- routes (argument types / vectorised calls)
+def _num(v):
+    return hexf(float(v))
+
+
+def run_route(c):
+    """every number-taking public function of a message called through every argument representation (python float,
+    np.float64, np.float32, int, 0-d / 1-element / k-element / (k, n) arrays, a float broadcast over an array message);
+    the reference is the SCALAR route: one scalar message per element, one python float per call"""
+    m = build(c["msg"])
+    transformed = isinstance(m, TransformedMessage)
+    b = m.base_message if transformed else m
+    out = {"desc": describe(m)}
+    bdesc = out["desc"]["base"] if transformed else out["desc"]
+    elems = bdesc["elems"]
+    n = len(elems)
+    scalar = m.shape == ()
+    stack = out["desc"]["t"]["stack"] if transformed else []
+    ones = []
+    for e in elems:
+        one = type(b)(*[unhex(h) for h in e])
+        ones.append(TransformedMessage(one, *m.transforms) if transformed else one)
+    U = [[unhex(h) for h in r] for r in c["u"]]
+    X = [[unhex(h) for h in r] for r in c["x"]]
+    k = len(U)
+    has_q = hasattr(b, "cdf")
+    funcs = ["logpdf", "pdf"] + (["value_for", "cdf", "cdf_vf"] if has_q else []) + (["ppf"] if hasattr(m, "ppf") else [])
+
+    def call(obj, f, arg):
+        if f == "cdf_vf":
+            return obj.cdf(obj.value_for(arg))
+        return getattr(obj, f)(arg)
+
+    def pts(f):
+        return U if f in ("value_for", "cdf_vf", "ppf") else X
+
+    # reference: scalar messages, python floats
+    ref = {}
+    for f in funcs:
+        try:
+            ref[f] = [[_num(call(ones[j], f, float(pts(f)[i][j]))) for j in range(n)] for i in range(k)]
+        except BaseException as ex:  # noqa
+            ref[f] = "exc:" + exc_name(ex) + ": " + str(ex)[:120]
+    out["ref"] = ref
+    # library quantile / cdf of the base family (independent of the anchored code)
+    if has_q:
+        lq, lc = [], []
+        for i in range(k):
+            qr, cr = [], []
+            for j in range(n):
+                one = ones[j].base_message if transformed else ones[j]
+                d = base_dist(one)
+                qr.append(_num(d.ppf(U[i][j])))
+                y, _ = chain(stack, X[i][j])
+                cr.append(_num(d.cdf(float(y))))
+            lq.append(qr)
+            lc.append(cr)
+        out["lib_q"], out["lib_cdf"] = lq, lc
+
+    def grid(v, shape_ok):
+        a = np.asarray(v, dtype=float)
+        if a.size != k * n:
+            return "shape:%r" % (list(a.shape),)
+        if shape_ok is not None and tuple(a.shape) not in shape_ok:
+            return "shape:%r" % (list(a.shape),)
+        return [[_num(z) for z in r] for r in a.reshape(k, n)]
+
+    def pointwise(f, conv, only_int=False):
+        P = pts(f)
+        rows = []
+        for i in range(k):
+            row = []
+            for j in range(n):
+                p = P[i][j]
+                if only_int and p != int(p):
+                    row.append(None)
+                    continue
+                v = np.asarray(call(m, f, conv(p)), dtype=float)
+                if v.size != 1:
+                    return "shape:%r" % (list(v.shape),)
+                row.append(_num(v.reshape(())))
+            rows.append(row)
+        return rows
+
+    routes = {}
+    if scalar:
+        plan = [("float", lambda f: pointwise(f, float)),
+                ("f64", lambda f: pointwise(f, np.float64)),
+                ("f32", lambda f: pointwise(f, np.float32)),
+                ("int", lambda f: pointwise(f, int, True)),
+                ("0d", lambda f: pointwise(f, lambda p: np.array(p))),
+                ("1el", lambda f: pointwise(f, lambda p: np.array([p]))),
+                ("vec", lambda f: grid(call(m, f, np.array([r[0] for r in pts(f)])), [(k,)])),
+                ("vec32", lambda f: grid(call(m, f, np.array([r[0] for r in pts(f)], dtype=np.float32)), [(k,)])),
+                ("col", lambda f: grid(call(m, f, np.array(pts(f))), [(k, 1)])),
+                ("float-again", lambda f: pointwise(f, float))]
+    else:
+        def per_row(f, dtype):
+            rows = []
+            for r in pts(f):
+                v = np.asarray(call(m, f, np.array(r, dtype=dtype)), dtype=float)
+                if v.shape != (n,):
+                    return "shape:%r" % (list(v.shape),)
+                rows.append([_num(z) for z in v])
+            return rows
+
+        def bcast(f):     # one python float for all elements of the array message
+            rows = []
+            for r in pts(f):
+                v = np.asarray(call(m, f, float(r[0])), dtype=float)
+                if v.shape != (n,):
+                    return "shape:%r" % (list(v.shape),)
+                rows.append([_num(z) for z in v])
+            return rows
+
+        plan = [("row", lambda f: per_row(f, float)),
+                ("row32", lambda f: per_row(f, np.float32)),
+                ("batch", lambda f: grid(call(m, f, np.array(pts(f))), [(k, n)])),
+                ("bcast", bcast),
+                ("row-again", lambda f: per_row(f, float))]
+    for name, fn in plan:
+        routes[name] = {}
+        for f in funcs:
+            if f in ("logpdf", "pdf") and name in ("col", "bcast"):
+                continue      # logpdf documents a ValueError unless x.shape is m.shape or (k,) + m.shape
+            try:
+                routes[name][f] = fn(f)
+            except BaseException as ex:  # noqa
+                routes[name][f] = "exc:" + exc_name(ex) + ": " + str(ex)[:120]
+    if not scalar:
+        # reference of the broadcast route: element j at the first point of the row
+        rb = {}
+        for f in funcs:
+            try:
+                rb[f] = [[_num(call(ones[j], f, float(pts(f)[i][0]))) for j in range(n)] for i in range(k)]
+            except BaseException as ex:  # noqa
+                rb[f] = "exc:" + exc_name(ex)
+        out["ref_bcast"] = rb
+    out["routes"] = routes
+    out["funcs"] = funcs
+    return out
+
+
 def run_case(c):
+    if c["kind"] == "route":
+        return run_route(c)
     if c["kind"] == "lpdf":
         return run_lpdf(c)
     if c["kind"] == "mixedparam":
